@@ -10,7 +10,15 @@ def msg_of(k):
     return mido.Message('note_on', note=k % 128, velocity=(k // 128) % 128, channel=(k // 16384) % 16)
 
 
+def rt_msg_of(k):
+    """a real-time message carrying identity k in its only attribute, `time`"""
+    import mido
+    return mido.Message(['clock', 'start', 'continue', 'stop', 'active_sensing', 'reset'][k % 6], time=k)
+
+
 def ident(m):
+    if m.type in ('clock', 'start', 'continue', 'stop', 'active_sensing', 'reset'):
+        return int(m.time) if isinstance(m.time, int) and m.time >= 0 else -1
     if m.type == 'note_on':
         return m.note + 128 * m.velocity + 16384 * m.channel
     if m.type == 'control_change' and m.control in (123, 121) and m.value == 0:
